@@ -133,9 +133,9 @@ def gen_model(rng, t, profile):
     if profile.get("alpha_base_one"):
         m["alpha_base"] = 1.0
     m["alpha_tau"] = rng.choice(profile.get("alpha_tau_choices") or [1, 30, 365])
-    m["dt"] = profile.get("dt") or rng.choice([1, 1, 1, 2, 7])
-    if m["alpha_tau"] < m["dt"]:
-        m["alpha_tau"] = m["dt"]
+    m["dt"] = profile.get("dt") or rng.choice(profile.get("dt_choices") or [1, 1, 1, 2, 7])
+    if m["alpha_tau"] < m["dt"] and rng.random() < 0.5:
+        m["alpha_tau"] = m["dt"]        # otherwise: a step longer than the characteristic time (rate > 1)
     m["rebuild_tau"] = rng.choice([10, 60, 365])
     m["monetary_factor"] = rng.choice([1, 10**3, 10**6])
     inv_mode = profile.get("inv_mode") or rng.choice(["default", "short", "dict", "inf_list", "inf_dict", "le_dt"])
@@ -252,7 +252,10 @@ def gen_event(rng, t, m, K, horizon, kind=None, profile=None):
                 lo_h, hi_h = profile["house_mult_alt"]
             e["households"] = [[list(h), tot * rng.uniform(lo_h, hi_h)] for h in sorted(hh)]
     if kind == "rebuild":
-        e["tau"] = rng.choice(profile.get("reb_tau") or [dt * 5, dt * 20, 60, 365])
+        e["tau"] = rng.choice(profile.get("reb_tau") or [dt * 5, dt * 20, 60, 365, max(1, dt - 2), max(1, dt // 2)])
+        if profile.get("reb_tau_rel"):
+            a_, b_ = rng.choice(profile["reb_tau_rel"])
+            e["tau"] = max(1, dt * a_ // b_)
         ns = rng.randint(1, min(3, len(t["sectors"])))
         secs = rng.sample(t["sectors"], ns)
         if ns == 1:
@@ -316,6 +319,11 @@ PROFILES = {
     "nonreal": dict(events=(1, 2), kinds=["arbitrary", "arbitrary", "recovery"], horizon=(20, 35), inv_mode="short",
                     psi_choices=[0.3, 0.5, 0.8, 1.0], frac_hi=0.9, arb_hi=(0.6, 0.97), rec_tau=[20, 40], rec_dur=(4, 10),
                     occ_max=3, dt=1, sparsity="tiny_input", hit_tiny_suppliers=1.0),
+    # reconstruction faster than a step (rebuilding time below the step length): the demand presented
+    # in one step exceeds what remains, deliveries overshoot, the books must stay at zero
+    "fast_rebuild": dict(events=(1, 2), kinds=["rebuild"], horizon=(10, 20), p_house=0.9, dt_choices=[2, 7, 7],
+                         reb_tau_rel=[(1, 3), (1, 2), (2, 3), (1, 1)], frac_lo=1e-4, frac_hi=5e-2, house_mult=(0.5, 4.0),
+                         occ_max=9, alpha_max_choices=[1.25, 2.0], sparsity_choices=["dense", "dense", "partial_final", "random_zeros"]),
     # capital specifications with industries owning nothing, and events destroying more than is owned
     "overkill": dict(events=(1, 3), kinds=["rebuild", "recovery", "recovery"], horizon=(10, 20), overkill=0.6, zero_capital=True,
                      sparsity_choices=["dense", "zero_output", "zero_output", "random_zeros", "partial_final"],
@@ -370,6 +378,8 @@ def gen_scenario(seed, profile_name="mixed", overrides=None):
         late = late_registration(rng2, events, m["dt"])
         if late:
             scn["sim"]["late"] = late
+    elif events and rng2.random() < prof.get("p_reuse", 0.25):
+        scn["sim"]["reuse"] = True       # Event objects that already served in another simulation
     return scn
 
 
@@ -401,5 +411,5 @@ def describe(scn):
         capital=(m.get("capital") or {}).get("kind", "default"), n=scn["sim"]["n"],
         events=[(e["type"], e["occ"], e["dur"], e.get("tau"), e.get("recovery_function"),
                  len(e.get("rebuilding_sectors", [])), bool(e.get("households"))) for e in scn["events"]],
-        late=scn["sim"].get("late"),
+        late=scn["sim"].get("late"), reuse=bool(scn["sim"].get("reuse")),
     )
